@@ -2,7 +2,7 @@
 # usage: cex.sh <replay file> [pattern]  - show interesting model values of a failing obligation
 f=$(grep "smt query" "$1" | awk '{print $3}'); p=${f%.smt2}_plain.smt2; [ -f $p ] || p=$f
 echo "query: $p"; grep "^(assert" $p | tail -1 | cut -c1-300
-z3-new $p | python3 -c "
+timeout 25 z3-new -T:20 $p | python3 -c "
 import sys,re
 t=sys.stdin.read()
 for m in re.finditer(r'\(define-fun (\S+) \(\) (\S+|\([^)]*\))\s+([^\n]*(?:\n\s{4,}[^\n]*)*)',t):
